@@ -161,7 +161,11 @@ func serialise(nodes []*html.Node) string {
 }
 
 // call renders the seat's program through entry with data d (built by the caller).
-func (s *seat) call(entry string, d map[string]any) (result, error) {
+func (s *seat) call(entry string, dm map[string]any) (result, error) {
+	var d any = dm
+	if dm == nil {
+		d = nil // "no data": an untyped nil, not a nil map
+	}
 	var buf bytes.Buffer
 	ctx := context.Background()
 	body := s.p.Files["page.vuego"]
@@ -179,13 +183,13 @@ func (s *seat) call(entry string, d map[string]any) (result, error) {
 		err = s.eng.root.New().Fill(d).RenderReader(ctx, &buf, strings.NewReader(body))
 	case eAssign:
 		t := s.eng.root.Load(s.page)
-		keys := make([]string, 0, len(d))
-		for k := range d {
+		keys := make([]string, 0, len(dm))
+		for k := range dm {
 			keys = append(keys, k)
 		}
 		sort.Strings(keys)
 		for _, k := range keys {
-			t = t.Assign(k, d[k])
+			t = t.Assign(k, dm[k])
 		}
 		err = t.Render(ctx, &buf)
 	case "vue":
@@ -256,11 +260,13 @@ func reference(p cat.Program, entry string, v int) (result, error) {
 	return r, nil
 }
 
-func variantsOf(p cat.Program) int {
+// variantsOf lists the data variants of p: all five for a program with data; a program
+// without data has only "empty map" (its variant 0) and "nil".
+func variantsOf(p cat.Program) []int {
 	if len(p.Data) == 0 {
-		return 1
+		return []int{0, vNil}
 	}
-	return nVariants
+	return []int{0, 1, 2, vEmpty, vNil}
 }
 
 func fillTable() error {
@@ -269,7 +275,7 @@ func fillTable() error {
 			if !applicable(p, e) {
 				continue
 			}
-			for v := 0; v < variantsOf(p); v++ {
+			for _, v := range variantsOf(p) {
 				if _, err := reference(p, e, v); err != nil {
 					return fmt.Errorf("reference %s/%s/v%d: %w", p.Name, e, v, err)
 				}
@@ -705,7 +711,7 @@ func rebase() error {
 			if !applicable(p, e) {
 				continue
 			}
-			for v := 0; v < variantsOf(p); v++ {
+			for _, v := range variantsOf(p) {
 				ref, _ := reference(p, e, v)
 				got, err := fresh(p, e, v)
 				where := fmt.Sprintf("%s/%s/v%d on a fresh engine at the end of the run", p.Name, e, v)
@@ -888,8 +894,10 @@ func genStep(t *rapid.T, p cat.Program) Step {
 	st := Step{Prog: p.Name}
 	st.Entry = rapid.SampledFrom(entriesOf(p)).Draw(t, "entry")
 	st.K = rapid.SampledFrom([]int{1, 1, 1, 1, 2, 3, 5, 20}).Draw(t, "k")
-	if variantsOf(p) > 1 {
-		st.Var = rapid.SampledFrom([]int{0, 0, 0, 1, 2}).Draw(t, "var")
+	if len(p.Data) > 0 {
+		st.Var = rapid.SampledFrom([]int{0, 0, 0, 1, 2, 1, 2, vEmpty, vNil}).Draw(t, "var")
+	} else if rapid.IntRange(0, 3).Draw(t, "nil-data") == 0 {
+		st.Var = vNil
 	}
 	return st
 }
@@ -1023,7 +1031,7 @@ func genHazard(t *rapid.T) Case {
 	c.Steps = []Step{
 		{Prog: "gen", Entry: entry, K: rapid.SampledFrom([]int{2, 5, 10, 20}).Draw(t, "k")},
 		genStep(t, other),
-		{Prog: "gen", Entry: rapid.SampledFrom(entriesOf(p)).Draw(t, "entry2"), K: 2, Var: rapid.IntRange(0, 2).Draw(t, "var")},
+		{Prog: "gen", Entry: rapid.SampledFrom(entriesOf(p)).Draw(t, "entry2"), K: 2, Var: rapid.IntRange(0, nVariants-1).Draw(t, "var")},
 		{Prog: "gen", Entry: entry, K: 2},
 	}
 	return c
@@ -1083,16 +1091,21 @@ func TestProp(t *testing.T) {
 	cs := combos()
 	for _, cb := range cs {
 		if isHazard(cb.p) {
-			for v := 0; v < variantsOf(cb.p); v++ {
+			for v := 0; v < 3 && (v == 0 || len(cb.p.Data) > 0); v++ {
 				each("probe", Case{Mode: "probe", Steps: []Step{{Prog: cb.p.Name, Entry: cb.entry, K: 30, Var: v}}})
 			}
 		}
 	}
 	// data variants of every (program, entry) on one engine
 	for _, cb := range cs {
-		if variantsOf(cb.p) > 1 {
-			st := func(v, k int) Step { return Step{Prog: cb.p.Name, Entry: cb.entry, Var: v, K: k} }
+		st := func(v, k int) Step { return Step{Prog: cb.p.Name, Entry: cb.entry, Var: v, K: k} }
+		if len(cb.p.Data) > 0 {
 			each("variants", Case{Steps: []Step{st(0, 2), st(1, 1), st(0, 1), st(2, 2), st(1, 1), st(0, 1)}})
+			// with data, with an empty map, with no data at all - repeated and interleaved
+			each("variants", Case{Steps: []Step{st(vEmpty, 3), st(0, 1), st(vNil, 3), st(1, 1), st(vEmpty, 1), st(vNil, 1), st(0, 1)}})
+			each("variants", Case{Steps: []Step{st(0, 1), st(vNil, 2), st(2, 1), st(vEmpty, 2), st(0, 1)}})
+		} else {
+			each("variants", Case{Steps: []Step{st(vNil, 3), st(0, 2), st(vNil, 1), st(0, 1)}})
 		}
 	}
 	// exhaustive core: all ordered pairs of (program, entry). For every A the other
